@@ -49,6 +49,7 @@ func init() {
 			{ID: "R02e", Floor: 3, Doc: "single-byte adapters read with io.ReadFull: a Read may deliver its last byte together with io.EOF", Run: ruleR02e},
 			{ID: "R02b", Floor: 5, Doc: "EOF sanitisation: the error of a section-body read from the stream reaches a return only along the not-equal outcome of a comparison with io.EOF (or after being replaced/wrapped)", Run: ruleR02b},
 			{ID: "R02f", Floor: 2, Doc: "the CARv2 payload is read through a reader bounded by the real stream, not by what the header announces (= R14a)", Run: ruleR14a},
+			{ID: "R02g", Floor: 10, Doc: "no new dropped error on the read paths (a failed Seek/Read that goes unnoticed turns truncation into a clean end) (= R16h)", Run: ruleR16h},
 		},
 	})
 }
